@@ -10,7 +10,13 @@
 (* the HIDDEN inputs of a process, each consumed where the code consumes   *)
 (* it and followed by the code's mitigation:                               *)
 (*                                                                         *)
-(*   StartRun   locale, environment size: chosen, read by nothing          *)
+(*   StartRun   EARLIER RUNS: the output files may already exist (the same  *)
+(*              contents, longer, shorter, reached through a symbolic      *)
+(*              link); Filename::open_write(stream, truncate = true)       *)
+(*              truncates, so nothing of the old contents survives.        *)
+(*              Truncates = FALSE documents an open that overwrites in     *)
+(*              place (Repro_notrunc.cfg: OutputPure violated).            *)
+(*              Locale, environment size: chosen, read by nothing          *)
 (*              (numbers are parsed/printed by pstrtod/pdtoa, options come *)
 (*              from argv only).  The SPELLING of the working directory:   *)
 (*              the process may have reached its directory through a       *)
@@ -44,7 +50,13 @@
 (*   Manifests  unordered_map<string, CPPManifest*> iteration assigns the  *)
 (*              manifest indices: the order is a function of the keys      *)
 (*              (std::hash<string> has no per-process seed)                *)
-(*   Ident      now, epoch: file_identifier = IF epoch set THEN epoch      *)
+(*   Ident      now, $SOURCE_DATE_EPOCH (EpochEnvs: "unset", "empty", "0",  *)
+(*              "1", "normal", "huge", "junk"): the variable counts as set *)
+(*              when it is non-empty, and then the identifier is atoi() of *)
+(*              it -- ALSO when that is 0 ("0", "junk"); ZeroMeansUnset =  *)
+(*              TRUE documents a tool that falls back to the clock for 0   *)
+(*              (Repro_epoch0.cfg: OutputPure violated).                   *)
+(*              file_identifier = IF epoch set THEN atoi(epoch)            *)
 (*              ELSE now, written to the code AND to the database          *)
 (*   Finish     the output record of the run is appended to `outs`         *)
 (*                                                                         *)
@@ -65,6 +77,10 @@ CONSTANTS Cats1, MaxOver1,   \* categories / number of overloads of one-paramete
           CwdVia,            \* hidden: how the process reached its directory -- {"real", "link"}
           OcNames,           \* INPUT: how the output files are named -- subset of {"rel", "abs"}
           CwdSource,         \* "getcwd" | "PWD"
+          EpochEnvs,         \* hidden/INPUT: values of $SOURCE_DATE_EPOCH (see EpochVal)
+          ZeroMeansUnset,    \* FALSE (an epoch of 0 is an epoch)
+          PrevFiles,         \* hidden: earlier outputs -- subset of {"none", "same", "longer", "shorter", "symlink"}
+          Truncates,         \* TRUE (open_write truncates)
           TieBreak           \* "signature" | "none"
 
 (* Parameter-type categories.  The position in this table is the category id; the table is  *)
@@ -93,10 +109,11 @@ VARIABLES ov,        \* the overload set: set of tuples of category ids (the inp
           emitted,   \* order in which the overloads are tried in the generated wrapper
           listed,    \* order in which a slot wrapper lists its overloads (doc comment, messages)
           ident,     \* file identifier of this run
-          epoch,     \* SOURCE_DATE_EPOCH of this run (0 = unset)
+          epoch,     \* $SOURCE_DATE_EPOCH of this run (an element of EpochEnvs)
+          stale,     \* bytes of an earlier, longer output survive behind the new contents
           outs       \* outputs of the finished runs
 
-vars == <<ov, oc, phase, cwdname, rank, emitted, listed, ident, epoch, outs>>
+vars == <<ov, oc, phase, cwdname, stale, rank, emitted, listed, ident, epoch, outs>>
 
 -----------------------------------------------------------------------------
 (* Orders on overloads *)
@@ -171,11 +188,15 @@ ImportsPure == \A t1, t2 \in Ranks(ExtTypes) : ImportOrder(t1) = ImportOrder(t2)
 \* there, is not visible to the process at all)
 CwdName(p, v) == IF CwdSource = "PWD" /\ p \in {"real", "link", "dotdot"} THEN p ELSE "real"
 
+\* $SOURCE_DATE_EPOCH: set iff non-empty; the identifier is atoi() of it (clock values are 1, 2)
+EpochSet(e) == e \notin {"unset", "empty"}
+EpochVal(e) == CASE e = "0" -> 0 [] e = "junk" -> 0 [] e = "1" -> 1 [] e = "normal" -> 17 [] e = "huge" -> 99 [] OTHER -> 0
+
 Arity == IF ov = {} THEN 0 ELSE Len(CHOOSE o \in ov : TRUE)
 N == Cardinality(ov)
 
 Init == /\ ov = {} /\ oc = "" /\ phase = "build" /\ cwdname = "" /\ rank = <<>> /\ emitted = <<>> /\ listed = <<>>
-        /\ ident = 0 /\ epoch = 0 /\ outs = <<>>
+        /\ ident = 0 /\ epoch = "" /\ stale = FALSE /\ outs = <<>>
 
 \* overloads are appended in signature order, so every SET is built exactly once
 AddOverload(o) ==
@@ -183,35 +204,36 @@ AddOverload(o) ==
   /\ \A p \in ov : Len(p) = Len(o) /\ SigLess(p, o)
   /\ N < (IF Len(o) = 1 THEN MaxOver1 ELSE MaxOver2)
   /\ ov' = ov \cup {o}
-  /\ UNCHANGED <<oc, phase, cwdname, rank, emitted, listed, ident, epoch, outs>>
+  /\ UNCHANGED <<oc, phase, cwdname, stale, rank, emitted, listed, ident, epoch, outs>>
 
 Close == /\ phase = "build" /\ ov # {}
          /\ \E n \in OcNames : oc' = n
          /\ phase' = "start"
-         /\ UNCHANGED <<ov, cwdname, rank, emitted, listed, ident, epoch, outs>>
+         /\ UNCHANGED <<ov, cwdname, stale, rank, emitted, listed, ident, epoch, outs>>
 
 StartRun == /\ phase = "start"
             /\ \E l \in Locales, e \in EnvSizes, p \in PwdValues, v \in CwdVia : cwdname' = CwdName(p, v)
             /\ phase' = "alloc"
+            /\ \E f \in PrevFiles : stale' = (~Truncates /\ f = "longer")
             /\ UNCHANGED <<ov, oc, rank, emitted, listed, ident, epoch, outs>>
 
 Alloc == /\ phase = "alloc"
          /\ \E r \in Ranks(ov) : rank' = r
          /\ phase' = "sort"
-         /\ UNCHANGED <<ov, oc, cwdname, emitted, listed, ident, epoch, outs>>
+         /\ UNCHANGED <<ov, oc, cwdname, stale, emitted, listed, ident, epoch, outs>>
 
 SortStep == /\ phase = "sort"
             /\ emitted' = Sorted(TieBreak, ov, rank)
             /\ listed' = IF TieBreak = "signature" THEN SigOrder(ov) ELSE PtrOrder(ov, rank)
             /\ phase' = "ident"
-            /\ UNCHANGED <<ov, oc, cwdname, rank, ident, epoch, outs>>
+            /\ UNCHANGED <<ov, oc, cwdname, stale, rank, ident, epoch, outs>>
 
 Ident == /\ phase = "ident"
-         /\ \E now \in Time, ep \in {0} \cup Time :
+         /\ \E now \in Time, ep \in EpochEnvs :
               /\ epoch' = ep
-              /\ ident' = IF ep # 0 THEN ep ELSE now
+              /\ ident' = IF EpochSet(ep) /\ ~(ZeroMeansUnset /\ EpochVal(ep) = 0) THEN EpochVal(ep) ELSE now
          /\ phase' = "write"
-         /\ UNCHANGED <<ov, oc, cwdname, rank, emitted, listed, outs>>
+         /\ UNCHANGED <<ov, oc, cwdname, stale, rank, emitted, listed, outs>>
 
 \* the three output files of a run
 \* the file name in the `#line` directive of the code file
@@ -221,12 +243,13 @@ Out == [code |-> [order |-> emitted, doc |-> listed, ident |-> ident, banner |->
                  imports |-> ImportOrder([x \in ExtTypes |-> x])],
         db   |-> [funcs |-> SigOrder(ov), manifests |-> BucketOrder(Macros), ident |-> ident],
         text |-> [funcs |-> SigOrder(ov)],
+        stale |-> stale,
         epoch |-> epoch]
 
 Finish == /\ phase = "write"
           /\ outs' = Append(outs, Out)
           /\ phase' = IF Len(outs) = 0 THEN "start" ELSE "done"
-          /\ cwdname' = "" /\ rank' = <<>> /\ emitted' = <<>> /\ listed' = <<>> /\ ident' = 0 /\ epoch' = 0
+          /\ cwdname' = "" /\ stale' = FALSE /\ rank' = <<>> /\ emitted' = <<>> /\ listed' = <<>> /\ ident' = 0 /\ epoch' = ""
           /\ UNCHANGED <<ov, oc>>
 
 Overloads == {<<c>> : c \in Cats1} \cup {<<c, d>> : c, d \in Cats2}
@@ -239,7 +262,7 @@ Spec == Init /\ [][Next]_vars
 -----------------------------------------------------------------------------
 (* Properties *)
 
-Strip(o) == [code |-> <<o.code.order, o.code.doc, o.code.banner, o.code.line>>, db |-> <<o.db.funcs, o.db.manifests>>, text |-> o.text]
+Strip(o) == [code |-> <<o.code.order, o.code.doc, o.code.banner, o.code.line, o.stale>>, db |-> <<o.db.funcs, o.db.manifests>>, text |-> o.text]
 
 \* C14: with the same SOURCE_DATE_EPOCH two runs give identical files; otherwise the files
 \* differ in the identifier only, and it is the same number in code and database of one run
@@ -247,7 +270,7 @@ OutputPure ==
   /\ \A i \in 1..Len(outs) : outs[i].code.ident = outs[i].db.ident
   /\ Len(outs) = 2 =>
        /\ Strip(outs[1]) = Strip(outs[2])
-       /\ (outs[1].epoch # 0 /\ outs[1].epoch = outs[2].epoch) => outs[1] = outs[2]
+       /\ (EpochSet(outs[1].epoch) /\ outs[1].epoch = outs[2].epoch) => outs[1] = outs[2]
 
 ASSUME ImportsPure
 
@@ -256,7 +279,10 @@ EmbedsArgumentsOnly ==
   \A i \in 1..Len(outs) : outs[i].code.line = (IF oc = "abs" THEN <<"abs">> ELSE <<"real", "rel">>)
 
 \* the identifier is the epoch when one is given
-EpochWins == \A i \in 1..Len(outs) : outs[i].epoch # 0 => outs[i].code.ident = outs[i].epoch
+EpochWins == \A i \in 1..Len(outs) : EpochSet(outs[i].epoch) => outs[i].code.ident = EpochVal(outs[i].epoch)
+
+\* an output never carries bytes of an earlier run
+NothingStale == \A i \in 1..Len(outs) : ~outs[i].stale
 
 \* On the model, the sort is independent of the allocation order IFF the comparator without
 \* the tie-break is total on the set: these are the inputs the replay has to target.
